@@ -1,21 +1,21 @@
 #!/bin/bash
 # process finished round-2 sub-agent worktrees: verify each change, then evaluate the quick check of its property in isolation
 cd /verif
-for wt in /tmp/wt2-C*; do
-  p=$(basename $wt | sed 's/wt2-//')
+for wt in /tmp/wt${ROUND:-2}-C*; do
+  p=$(basename $wt | sed "s/wt${ROUND:-2}-//")
   [ -f $wt/NOTES.md ] || continue
   for l in A B C; do
     [ -f $wt/mutant$l.diff ] || continue
-    id=$p-2$l
+    id=$p-${ROUND:-2}$l
     [ -f seeded/$id/results.txt ] && continue
     if [ ! -d seeded/$id ]; then
       if [ -f $wt/.verify_$l ]; then continue; fi
-      out=$(tools/seed_verify.sh $wt $l $p 2 2>&1 | tail -1); echo "$out" | cut -c1-160
+      out=$(tools/seed_verify.sh $wt $l $p ${ROUND:-2} 2>&1 | tail -1); echo "$out" | cut -c1-160
       echo "$out" > $wt/.verify_$l
       if [ ! -d seeded/$id ] && grep -qi "miri" $wt/NOTES.md; then
-        out=$(SEED_MIRI=1 tools/seed_verify.sh $wt $l $p 2 2>&1 | tail -1); echo "(miri) $out" | cut -c1-160
+        out=$(SEED_MIRI=1 tools/seed_verify.sh $wt $l $p ${ROUND:-2} 2>&1 | tail -1); echo "(miri) $out" | cut -c1-160
       fi
     fi
-    [ -d seeded/$id ] && tools/iso_eval.sh r2 $id quick $p 2>&1 | tail -1 | cut -c1-260
+    [ -d seeded/$id ] && tools/iso_eval.sh r${ROUND:-2} $id quick $p 2>&1 | tail -1 | cut -c1-260
   done
 done
